@@ -25,7 +25,8 @@ LEAN_HELPERS = ['MV.Lemmas.Parse', 'MV.Lemmas.ImportNote', 'MV.Lemmas.ImportLoop
                 'MV.Model.Basic', 'MV.Model.Types']
 DRIVERS = ['C14']
 GEN = ['Tables', 'Library']
-SRC_TIE = ['SrcOps']   # py2lean source image of Chord.parse proved equal to the model (MV/Props/TieOps.lean)
+SRC_TIE = ['SrcOps', 'SrcImport']   # py2lean source images proved equal to the model: Chord.parse (MV/Props/TieOps.lean); _parse_voice,
+                                      # infer_score_with_chords_durations, Item.array / frommatrix, Note.augment (MV/Props/TieSrcImport.lean)
 RULE = ('parse: every mode x degree with random tonic/octaves x all pitches -60..67 (+ random far pitches); '
         'import: 1-4 bars (equal or mixed lengths 2, 3, 4, 3/2, 5/4), 1-4 monophonic voices on 1-2 tracks, notes on '
         'grids 1/1..1/8 (and /3, /5, /7), gaps, notes crossing 1-3 bar lines, silent bars, silent voices; plus a '
@@ -503,9 +504,9 @@ def oracle(ctx):
     rng = ctx.rng
     # 1. witnesses and suspects
     todo = list(WITNESSES)
-    for st, i in ctx.suspects:
+    for st, i in list(ctx.suspects) + list(getattr(ctx, 'kernel_suspects', [])):      # kernel stream `iscore` (SrcImport) uses the same inputs
         if i and 'voices' in i and 'malformed' not in i:
-            todo.append(i)
+            todo.append({k: v for k, v in i.items() if k != 'kernel'})
     # 2. small enumerated inputs: one voice, one or two notes, two or three bars of 2 / 3, half-beat grid
     for L in (2, 3):
         for nb in (2, 3):
